@@ -463,6 +463,8 @@ class CrashNet:
             w.incoming_thread = None
             for name in WORKER_EXTRA_ATTRS & _worker_init_attrs():
                 setattr(w, name, threading.Lock())
+            from harness import runtime_sim as _rs
+            _rs.autofill(w, [(Worker, ('__init__',))])
             self.node[i] = w
             self.up_conn[i] = w._conn
         self.server = self.node[0]
